@@ -21,7 +21,11 @@ def gen_history(rng: random.Random, n_lo=5, n_hi=14, props=True, fails=True, gc=
         tag = f"h{j}"
         r = rng.random()
         op: Dict[str, Any]
-        if r < 0.30:
+        if r < 0.05:
+            # a pre-built file registered under the plain relative spelling ('data/f', what write_data_file returns) or the
+            # rooted one ('/data/f', what append_data stores): later deletes name it under either spelling
+            op = {"kind": "files_append", "tag": tag, "n": rng.randint(1, 2), "spell": rng.choice(["canon", "noslash", "noslash"])}
+        elif r < 0.30:
             op = {"kind": "append", "tag": tag, "n": rng.randint(1, 2), "style": rng.choice(["records", "with", "explicit"])}
         elif r < 0.38:
             op = {"kind": "multi", "tag": tag, "n": 1, "parts": rng.choice([2, 3, 3, 4])}
